@@ -24,7 +24,7 @@ def plan(tier):
     pl.level = "other"
     for n in (0, 1, 2):
         for d in (False, True):
-            pl.units.append(U("W.rendering.n%d.%s" % (n, "desc" if d else "nodesc"), "contracts.factorygen", "h_set_rendering", (n, d)))
+            pl.units.append(U("W.rendering.n%d.%s" % (n, "desc" if d else "nodesc"), "contracts.factorygen", "h_set_rendering", (n, d), native_ok=True, sample_models=True))
     pl.units.append(U("C.reset", "contracts.gating", "h_reset_parser_full", (), native_ok=True, sample_models=True))
 
     def lf(u, label):
